@@ -125,7 +125,12 @@ def close_cut(rng, sids=None):
         s.append(("send", sids.next(), "ok", rng.choice(POL)))
     s.append(("net", "accept"))
     s.append(("adv", 8000))          # 1000 s idle
-    if rng.random() < 0.3:
+    r = rng.random()
+    if r < 0.25:
         s.append(("send", sids.next(), "ok", "idem"))
         s.append(("adv", 40))
+    elif r < 0.65:
+        # a later open works as on a fresh object: connected again, receiving and transmitting
+        s.append(("open",))
+        s.append(("heal",))
     return s
